@@ -616,6 +616,22 @@ func (db *DB) rollbackJournal(ctx context.Context) error {
 	}
 	defer func() { _ = journalFile.Close() }()
 
+	// If the page size is unknown then no page has been written to the database
+	// file yet so there is nothing to roll back. Discard the journal.
+	if db.pageSize == 0 {
+		if err := journalFile.Close(); err != nil {
+			return err
+		} else if err := db.os.Remove("ROLLBACKJOURNAL", db.JournalPath()); err != nil {
+			return err
+		}
+		if invalidator := db.store.Invalidator; invalidator != nil {
+			if err := invalidator.InvalidateEntry(db.name + "-journal"); err != nil {
+				return fmt.Errorf("invalidate journal: %w", err)
+			}
+		}
+		return nil
+	}
+
 	dbFile, err := db.os.OpenFile("ROLLBACKJOURNALDB", db.DatabasePath(), os.O_RDWR, 0o666)
 	if err != nil {
 		return err
